@@ -799,7 +799,8 @@ class revert_intro(Method):
         except ProofStateException:
             raise AssertionError("revert_intro: cannot find intros after the goal")
         assert item.rule == 'intros' and len(item.prevs) >= 2 and \
-            item.prevs[-1] == id and item.prevs[-2] == prevs[0], \
+            item.prevs[-1] == id and item.prevs[-2] == prevs[0] and \
+            item.prevs.count(prevs[0]) == 1, \
             "revert_intro: prev is not the last assumption for the goal"
         prf = state.prf.get_parent_proof(id)
         for other in prf.items:
